@@ -18,6 +18,7 @@ Mirrors (hand-written, tied to the code by `harness/c17.py`):
   `grad_betaln`), `BetaMessage.invert_sufficient_statistics`          → `betaStart`, `betaStep`, `betaNewton`, `invertSuffBeta`
 * `from_sufficient_statistics`, `AbstractMessage.project` for every family
                                                                      → `invertSuffX`, `fromSuffX`, `weightedStatsT`, `projectWX`, `projectX`, `M.projectX`
+* `NaturalNormal.mean` (with its `np.nan_to_num`) → `Base.meanX`, `M.meanX`
 * `NormalMessage / NaturalNormal / GammaMessage .from_mode` (scalar variance) → `fromMode`
 * `TransformedMessage.__init__` (flattening of a transformed base message) → `M.wrap`
 
@@ -45,6 +46,8 @@ structure Sp (K : Type) where
   rpow : K → K → K
   /-- `np.nan_to_num(·, nan=-inf)` -/
   nanToNum : K → K
+  /-- `np.nan_to_num(·)` with its defaults (NaN ↦ 0) -/
+  nanToNum0 : K → K
   /-- `np.abs` -/
   abs : K → K
   /-- the constants `A, beta, gamma` of `invpsilog`'s starting guess -/
@@ -94,6 +97,17 @@ def Base.logpdfX (fn : Fn K) (sp : Sp K) (a : Base K) (x : K) : K :=
 /-- `TransformedMessage.logpdf(x)` / `message.logpdf(x)` -/
 def M.logpdfX (fn : Fn K) (sp : Sp K) (m : M K) (x : K) : K :=
   m.base.logpdfX fn sp (transformChain fn m.trs x)
+
+/-- `message.mean` as the code computes it: `NaturalNormal.mean` passes `-η₁ / η₂ / 2` through `np.nan_to_num`
+(so the zero message `a ** 0` reports mean 0) -/
+def Base.meanX (sp : Sp K) (a : Base K) : K :=
+  match a.fam with
+  | .naturalNormal => sp.nanToNum0 a.mean
+  | _ => a.mean
+
+/-- `message.mean` of a plain or transformed message -/
+def M.meanX (fn : Fn K) (sp : Sp K) (m : M K) : K :=
+  inverseChain fn m.trs (m.base.meanX sp)
 
 /-- `E[t(x)]` under the member `a` (closed forms) -/
 def Base.expectedStats (fn : Fn K) (sp : Sp K) (a : Base K) : K × K :=
@@ -285,6 +299,7 @@ def floatSp (t : Tables2) : Sp Float where
   log1p := fun y => Float.log (1.0 + y)
   rpow := Float.pow
   nanToNum := nanToNumF
+  nanToNum0 := fun v => if v.isNaN then 0.0 else nanToNumF v
   abs := Float.abs
   cA := 0.38648347
   cB := 0.89486989
